@@ -103,7 +103,7 @@ func (e *Env) Dial(ctx context.Context, network, addr string) (net.Conn, error) 
 	if e.frozen.Load() {
 		return nil, net.ErrClosed
 	}
-	e.mu.Lock()
+	e.lock()
 	e.NDials++
 	rec := &DialRec{N: e.NDials, Addr: addr, Step: e.Step, At: e.Now()}
 	e.Dials = append(e.Dials, rec)
@@ -112,11 +112,11 @@ func (e *Env) Dial(ctx context.Context, network, addr string) (net.Conn, error) 
 		e.Ev("dial#%d %s started, takes %v", rec.N, addr, delay)
 		e.Probe("dial-slow")
 	}
-	e.mu.Unlock()
+	e.unlock()
 	if delay > 0 {
 		t := time.NewTimer(delay)
 		select {
-		case <-ctx.Done():
+		case <-ctx.Done(): // the code under test cancels its own dial: a real edge
 			t.Stop()
 		case <-e.frozenCh:
 			t.Stop()
@@ -127,8 +127,8 @@ func (e *Env) Dial(ctx context.Context, network, addr string) (net.Conn, error) 
 			return nil, net.ErrClosed
 		}
 	}
-	e.mu.Lock()
-	defer e.mu.Unlock()
+	e.lock()
+	defer e.unlock()
 	rec.DoneAt = e.Now()
 	fail := func(msg string) (net.Conn, error) {
 		rec.Err = msg
@@ -158,6 +158,18 @@ func (e *Env) Dial(ctx context.Context, network, addr string) (net.Conn, error) 
 	return c, nil
 }
 
+func (c *Conn) lock() {
+	simrt.RaceOff()
+	c.mu.Lock()
+	simrt.RaceOn()
+}
+
+func (c *Conn) unlock() {
+	simrt.RaceOff()
+	c.mu.Unlock()
+	simrt.RaceOn()
+}
+
 func (c *Conn) fault(kind string) *ConnFault {
 	c.ops++
 	for _, f := range c.env.ConnFaults {
@@ -174,10 +186,12 @@ func (c *Conn) fault(kind string) *ConnFault {
 }
 
 func (c *Conn) signal() {
+	simrt.RaceOff()
 	close(c.rwake)
 	c.rwake = make(chan struct{})
 	close(c.wwake)
 	c.wwake = make(chan struct{})
+	simrt.RaceOn()
 }
 
 func (c *Conn) Read(p []byte) (int, error) {
@@ -185,8 +199,8 @@ func (c *Conn) Read(p []byte) (int, error) {
 	if c.env.frozen.Load() {
 		return 0, net.ErrClosed
 	}
-	c.env.mu.Lock()
-	c.mu.Lock()
+	c.env.lock()
+	c.lock()
 	c.Reads++
 	if c.ReadBytes > c.ReadMark {
 		// the reader asks for more: everything it had read has been processed
@@ -194,46 +208,47 @@ func (c *Conn) Read(p []byte) (int, error) {
 		c.Marks = append(c.Marks, [2]uint64{uint64(c.ReadBytes), c.env.Step})
 	}
 	if f := c.fault("read"); f != nil {
-		c.mu.Unlock()
-		c.env.mu.Unlock()
+		c.unlock()
+		c.env.unlock()
 		return 0, &net.OpError{Op: "read", Net: "sim", Err: errors.New("injected read error")}
 	}
-	c.mu.Unlock()
-	c.env.mu.Unlock()
+	c.unlock()
+	c.env.unlock()
 	for {
-		c.env.mu.Lock()
-		c.mu.Lock()
+		c.env.lock()
+		c.lock()
 		if c.closed || c.env.frozen.Load() {
-			c.mu.Unlock()
-			c.env.mu.Unlock()
+			c.unlock()
+			c.env.unlock()
 			return 0, &net.OpError{Op: "read", Net: "sim", Err: net.ErrClosed}
 		}
 		if len(c.rbuf) > 0 {
 			n := copy(p, c.rbuf)
 			c.rbuf = c.rbuf[n:]
 			c.ReadBytes += n
-			c.mu.Unlock()
-			c.env.mu.Unlock()
+			c.unlock()
+			c.env.unlock()
 			return n, nil
 		}
 		if c.rerr != nil {
 			err := c.rerr
-			c.mu.Unlock()
-			c.env.mu.Unlock()
+			c.unlock()
+			c.env.unlock()
 			return 0, err
 		}
 		dl := c.rdl
 		if !dl.IsZero() && !time.Now().Before(dl) {
 			c.ReadTimeouts++
 			c.Death = append(c.Death, "read deadline expired")
-			c.mu.Unlock()
+			c.unlock()
 			c.env.Ev("c%d read timeout", c.N)
-			c.env.mu.Unlock()
+			c.env.unlock()
 			return 0, errTimeout
 		}
 		ch := c.rwake
-		c.mu.Unlock()
-		c.env.mu.Unlock()
+		c.unlock()
+		c.env.unlock()
+		simrt.RaceOff()
 		if dl.IsZero() {
 			<-ch
 		} else {
@@ -244,6 +259,7 @@ func (c *Conn) Read(p []byte) (int, error) {
 			case <-t.C:
 			}
 		}
+		simrt.RaceOn()
 		simrt.Woke("simnet:Read")
 	}
 }
@@ -255,17 +271,18 @@ func (c *Conn) Write(p []byte) (int, error) {
 	}
 	written := 0
 	for first := true; ; first = false {
-		c.env.mu.Lock()
-		c.mu.Lock()
+		c.env.lock()
+		c.lock()
 		n, err, wait, dl := c.writeLocked(p, first)
 		written += n
 		p = p[n:]
-		c.mu.Unlock()
-		c.env.mu.Unlock()
+		c.unlock()
+		c.env.unlock()
 		if wait == nil {
 			return written, err
 		}
 		// the peer does not read and the window is full: block like a socket
+		simrt.RaceOff()
 		if dl.IsZero() {
 			<-wait
 		} else {
@@ -276,6 +293,7 @@ func (c *Conn) Write(p []byte) (int, error) {
 			case <-t.C:
 			}
 		}
+		simrt.RaceOn()
 		simrt.Woke("simnet:Write")
 		if c.env.frozen.Load() {
 			return written, net.ErrClosed
@@ -344,8 +362,8 @@ func (c *Conn) writeLocked(p []byte, first bool) (n int, err error, wait chan st
 
 // flushHeld hands the bytes held back during a stall to the server.
 func (c *Conn) flushHeld() {
-	c.mu.Lock()
-	defer c.mu.Unlock()
+	c.lock()
+	defer c.unlock()
 	if len(c.held) > 0 && !c.closed && !c.broken {
 		c.feed(c.held)
 	}
@@ -368,10 +386,10 @@ func (c *Conn) Close() error {
 	if c.env.frozen.Load() {
 		return nil
 	}
-	c.env.mu.Lock()
-	defer c.env.mu.Unlock()
-	c.mu.Lock()
-	defer c.mu.Unlock()
+	c.env.lock()
+	defer c.env.unlock()
+	c.lock()
+	defer c.unlock()
 	if f := c.fault("close"); f != nil {
 		// a failing Close still closes
 		_ = f
@@ -389,8 +407,8 @@ func (c *Conn) Close() error {
 }
 
 func (c *Conn) IsClosed() bool {
-	c.mu.Lock()
-	defer c.mu.Unlock()
+	c.lock()
+	defer c.unlock()
 	return c.closed
 }
 
@@ -409,10 +427,10 @@ func (c *Conn) SetReadDeadline(t time.Time) error {
 	if c.env.frozen.Load() {
 		return net.ErrClosed
 	}
-	c.env.mu.Lock()
-	defer c.env.mu.Unlock()
-	c.mu.Lock()
-	defer c.mu.Unlock()
+	c.env.lock()
+	defer c.env.unlock()
+	c.lock()
+	defer c.unlock()
 	if f := c.fault("deadline"); f != nil {
 		return &net.OpError{Op: "set", Net: "sim", Err: errors.New("injected deadline error")}
 	}
@@ -429,10 +447,10 @@ func (c *Conn) SetWriteDeadline(t time.Time) error {
 	if c.env.frozen.Load() {
 		return net.ErrClosed
 	}
-	c.env.mu.Lock()
-	defer c.env.mu.Unlock()
-	c.mu.Lock()
-	defer c.mu.Unlock()
+	c.env.lock()
+	defer c.env.unlock()
+	c.lock()
+	defer c.unlock()
 	if f := c.fault("deadline"); f != nil {
 		return &net.OpError{Op: "set", Net: "sim", Err: errors.New("injected deadline error")}
 	}
@@ -446,16 +464,16 @@ func (c *Conn) SetWriteDeadline(t time.Time) error {
 
 // ReadDeadline returns the currently armed read deadline (zero = none).
 func (c *Conn) ReadDeadline() time.Time {
-	c.mu.Lock()
-	defer c.mu.Unlock()
+	c.lock()
+	defer c.unlock()
 	return c.rdl
 }
 
 // ---- scheduler-side actions ----
 
 func (c *Conn) alive() bool {
-	c.mu.Lock()
-	defer c.mu.Unlock()
+	c.lock()
+	defer c.unlock()
 	return !c.closed && !c.broken && c.rerr == nil
 }
 
@@ -467,8 +485,8 @@ func (c *Conn) execEnabled() bool {
 }
 
 func (c *Conn) deliverEnabled() bool {
-	c.mu.Lock()
-	defer c.mu.Unlock()
+	c.lock()
+	defer c.unlock()
 	return len(c.outq) > 0 && !c.closed && c.rerr == nil
 }
 
@@ -512,7 +530,7 @@ func (c *Conn) execOne() {
 			return
 		}
 	}
-	c.mu.Lock()
+	c.lock()
 	c.outq = append(c.outq, resp...)
 	c.frames = append(c.frames, len(resp))
 	c.Produced += len(resp)
@@ -520,13 +538,13 @@ func (c *Conn) execOne() {
 	for _, x := range e.C.Execs[nlog:] {
 		x.RespEnd = c.Produced
 	}
-	c.mu.Unlock()
+	c.unlock()
 }
 
 // deliverSome moves response bytes to the client's read buffer.
 func (c *Conn) deliverSome() {
 	e := c.env
-	c.mu.Lock()
+	c.lock()
 	n := 0
 	if len(c.frames) > 0 {
 		n = c.frames[0]
@@ -571,7 +589,7 @@ func (c *Conn) deliverSome() {
 		e.Stats.FaultsFired++
 	}
 	c.signal()
-	c.mu.Unlock()
+	c.unlock()
 	e.NDeliver++
 	e.Stats.Deliver++
 	e.Ev("c%d D %d cut=%v", c.N, n, cut)
@@ -579,7 +597,7 @@ func (c *Conn) deliverSome() {
 
 // Reset makes the server side drop the connection.
 func (c *Conn) Reset(why string, err error) {
-	c.mu.Lock()
+	c.lock()
 	if c.rerr == nil {
 		c.rerr = err
 	}
@@ -588,7 +606,7 @@ func (c *Conn) Reset(why string, err error) {
 	c.SC.Pending = nil
 	c.Death = append(c.Death, why)
 	c.signal()
-	c.mu.Unlock()
+	c.unlock()
 	c.env.Ev("c%d reset %s", c.N, why)
 }
 
@@ -615,24 +633,26 @@ func (z *ZK) LocateResource(r zk.ResourceName) (string, error) {
 	if e.frozen.Load() {
 		return "", errors.New("zk: closed")
 	}
-	e.mu.Lock()
+	e.lock()
 	q := ZKQuery{Res: string(r), At: e.Now(), Step: e.Step}
 	delay := z.Delay
-	e.mu.Unlock()
+	e.unlock()
 	if delay > 0 {
+		simrt.RaceOff()
 		t := time.NewTimer(delay)
 		select {
 		case <-t.C:
 		case <-e.frozenCh:
 			t.Stop()
 		}
+		simrt.RaceOn()
 		simrt.Woke("simzk:Locate")
 		if e.frozen.Load() {
 			return "", errors.New("zk: closed")
 		}
 	}
-	e.mu.Lock()
-	defer e.mu.Unlock()
+	e.lock()
+	defer e.unlock()
 	if z.Fail != 0 {
 		if z.Fail > 0 {
 			z.Fail--
